@@ -298,5 +298,153 @@ def run(chk: Check) -> None:
     run_make_term(chk, prog, S)
     run_get_term_ex(chk, prog, S)
     run_factor(chk, prog, S)
+    run_like_terms(chk, prog, S)
     chk.exhaustive = True
     chk.max_undecided = 0
+
+
+# --------------------------------------------------------------------------- like-term predicates on bounded sums
+TERM_FORMS = {
+    "c": lambda b, i: ("const", f"k{i}"),
+    "x": lambda b, i: ("var", "x"),
+    "y": lambda b, i: ("var", "y"),
+    "cx": lambda b, i: ("Multiply", ("const", f"k{i}"), ("var", "x")),
+    "cy": lambda b, i: ("Multiply", ("const", f"k{i}"), ("var", "y")),
+    "x^n": lambda b, i: ("Power", ("var", "x"), ("const", f"e{i}")),
+    "cx^n": lambda b, i: ("Multiply", ("const", f"k{i}"), ("Power", ("var", "x"), ("const", f"e{i}"))),
+    "-x": lambda b, i: ("Negate", ("var", "x")),
+    "xy": lambda b, i: ("Multiply", ("var", "x"), ("var", "y")),
+    "xx": lambda b, i: ("Multiply", ("var", "x"), ("var", "x")),
+}
+
+
+def _build_sum(pat, arrangement, specs):
+    """arrangement: nested tuple of indices, e.g. ((0, 1), 2); specs: list of term specs."""
+    if isinstance(arrangement, int):
+        return specs[arrangement]
+    return ("Add", _build_sum(pat, arrangement[0], specs), _build_sum(pat, arrangement[1], specs))
+
+
+def _arrangements(n: int):
+    import itertools
+    idx = list(range(n))
+    out = []
+    for perm in itertools.permutations(idx):
+        if n == 2:
+            out.append((perm[0], perm[1]))
+        else:
+            out.append(((perm[0], perm[1]), perm[2]))
+            out.append((perm[0], (perm[1], perm[2])))
+    return out
+
+
+def run_like_terms(chk: Check, prog: Program, S: Summaries) -> None:
+    from .c08 import Pat
+    chk.rule("C16.R6", "has_like_terms gives the same answer for every order and grouping of the same terms (sums of 2-3 terms)",
+             minimum=30)
+    chk.rule("C16.R7", "terms_are_like is reflexive and symmetric (pairs of natural-order term forms)", minimum=40)
+    chk.rule("C16.R8", "the term predicates do not raise on sums of natural-order terms", minimum=30)
+    hlt = prog.func("util", "has_like_terms")
+    tal = prog.func("util", "terms_are_like")
+    preds = [prog.func("util", n) for n in ("is_simple_term", "is_preferred_term_form", "get_sub_terms", "get_terms")]
+    import itertools
+    names = list(TERM_FORMS)
+    cfg = {"max_updepth": 0, "hooks": S.hooks(), "max_steps": 80000, "max_inline": 60}
+
+    def mk_consts(it: Interp, pat: "Pat") -> None:
+        pass
+
+    # ---- R7 symmetry / reflexivity
+    for a, b in itertools.combinations_with_replacement(names, 2):
+        def body(it: Interp, a=a, b=b):
+            pat = Pat(it, concrete_idents=True)
+            root = pat.build(("Add", TERM_FORMS[a](pat, 1), TERM_FORMS[b](pat, 2)))
+            cell = it.cells[root.cid]
+            it._set_entry(cell, "parent", None)
+            A_, B_ = cell.entry["left"], cell.entry["right"]
+            out = {}
+            for name, (p, q) in (("ab", (A_, B_)), ("ba", (B_, A_)), ("aa", (A_, A_)), ("bb", (B_, B_))):
+                try:
+                    out[name] = ("ok", it.call_function(tal, [p, q], {}))
+                except AbsRaise as e:
+                    out[name] = ("raise", e.exc)
+            return out
+        for p in explore(prog, body, cfg, max_paths=2000):
+            label = f"terms_are_like on ({a}, {b}) with {p.cond[-120:] or 'no condition'}"
+            if p.outcome != "return":
+                chk.undecided("C16.R7", f"C16.R7:{a},{b}", label, f"{p.outcome} {p.exc or p.note}", tal.where)
+                continue
+            out = p.value
+            probs = []
+            for k in ("ab", "ba", "aa", "bb"):
+                if out[k][0] == "raise":
+                    probs.append(f"raises {out[k][1]} ({k})")
+            if not probs:
+                if out["ab"][1] != out["ba"][1]:
+                    probs.append(f"terms_are_like({a}, {b}) = {out['ab'][1]} but terms_are_like({b}, {a}) = {out['ba'][1]}")
+                if out["aa"][1] is not True:
+                    probs.append(f"terms_are_like({a}, {a}) = {out['aa'][1]}")
+                if out["bb"][1] is not True:
+                    probs.append(f"terms_are_like({b}, {b}) = {out['bb'][1]}")
+            key = f"C16.R7:terms_are_like:{'asymmetric' if any('but' in x for x in probs) else 'pair'}:{a},{b}"
+            chk.verdict(not probs, "C16.R7", key if probs else "C16.R7:terms_are_like", label, "; ".join(probs),
+                        witness={"terms": [a, b], "path": p.cond[-200:]}, where=tal.where)
+
+    # ---- R6 order / grouping invariance, R8 no raise
+    multisets = [c for c in itertools.combinations_with_replacement(names, 2)] + \
+                [c for c in itertools.combinations_with_replacement(["c", "x", "cx", "x^n", "cx^n", "y", "-x"], 3)]
+    if chk.tier == "quick":
+        multisets = multisets[:55] + multisets[55::3]
+    for ms in multisets:
+        n = len(ms)
+        arrs = _arrangements(n)
+
+        def body(it: Interp, ms=ms, arrs=arrs):
+            results = []
+            for arr in arrs:
+                pat = Pat(it, concrete_idents=True)
+                specs = [TERM_FORMS[f](pat, i) for i, f in enumerate(ms)]
+                # payload symbols must be shared between arrangements: name constants by index
+                root = pat.build(_build_sum(pat, arr, specs))
+                it._set_entry(it.cells[root.cid], "parent", None)
+                for nm, cid in pat.names.items():
+                    if nm.startswith(("k", "e")) and it.cells[cid].kinds <= {"ConstantExpression"}:
+                        it.cells[cid].entry["value"] = it.cells[cid].cur["value"] = Num(("sym", nm))
+                try:
+                    results.append(("ok", it.call_function(hlt, [root], {})))
+                except AbsRaise as e:
+                    results.append(("raise", e.exc, e.site))
+                extra = []
+                for fn in preds:
+                    try:
+                        it.call_function(fn, [root], {})
+                    except AbsRaise as e:
+                        extra.append((fn.name, e.exc, e.site))
+                results[-1] = results[-1] + (tuple(extra),)
+            return results
+
+        for p in explore(prog, body, cfg, max_paths=3000):
+            label = f"sum of ({', '.join(ms)}) in {len(arrs)} arrangements with {p.cond[-100:] or 'no condition'}"
+            if p.outcome != "return":
+                chk.undecided("C16.R6", f"C16.R6:{ms}", label, f"{p.outcome} {p.exc or p.note}", hlt.where)
+                continue
+            res = p.value
+            raises = [r for r in res if r[0] == "raise"]
+            extras = [e for r in res for e in r[-1]]
+            if raises or extras:
+                what = raises[0][1:3] if raises else extras[0]
+                chk.fail("C16.R8", f"C16.R8:{what[0] if not raises else 'has_like_terms'}:{what[-2] if not raises else what[0]}", label,
+                         f"a term predicate raises on a sum of natural-order terms: {what}",
+                         witness={"terms": list(ms), "path": p.cond[-200:]}, where=hlt.where)
+            else:
+                chk.ok("C16.R8", "C16.R8", label, where=hlt.where)
+            answers = [r[1] for r in res if r[0] == "ok"]
+            if len(set(map(repr, answers))) > 1:
+                pairs = [(arrs[i], answers[i]) for i in range(len(answers))]
+                t = next(a for a in pairs if a[1] is True)
+                f = next(a for a in pairs if a[1] is not True)
+                chk.fail("C16.R6", f"C16.R6:has_like_terms:{','.join(ms)}", label,
+                         f"has_like_terms is {t[1]} for arrangement {t[0]} and {f[1]} for arrangement {f[0]} of the same terms "
+                         f"(indices into {list(ms)})", witness={"terms": list(ms), "path": p.cond[-200:]}, where=hlt.where)
+            else:
+                chk.ok("C16.R6", "C16.R6:has_like_terms", label, where=hlt.where)
